@@ -1484,16 +1484,30 @@ pub struct MemReport {
 
 /// Executes a scenario on the managed thread pool and returns everything the oracles need.
 pub fn run_scenario(sc: &Scenario) -> Execution {
-    // memory-safety scenarios may crash the process (a wild pointer followed before any hook
-    // sees it): leave the case on disk so that the driver can report it
-    let crash_file = if sc.opts.quarantine { std::env::var("MQV_CRASH_FILE").ok() } else { None };
-    if let Some(f) = &crash_file {
-        let _ = std::fs::write(f, serde_json::to_string(sc).unwrap_or_default());
+    // a broken crate may crash the process (a wild pointer followed before any hook sees it, an
+    // abort on a corrupted value): the case is left on disk while it runs so that the driver can
+    // report the crash together with the scenario that caused it (about 2 % of an execution's cost)
+    use std::os::unix::fs::FileExt;
+    thread_local! {
+        static CRASH_FILE: std::cell::RefCell<Option<std::fs::File>> = std::cell::RefCell::new(
+            std::env::var("MQV_CRASH_FILE").ok().and_then(|p| {
+                std::fs::OpenOptions::new().create(true).write(true).truncate(true).open(p).ok()
+            }),
+        );
     }
+    CRASH_FILE.with(|c| {
+        if let Some(f) = c.borrow().as_ref() {
+            let body = serde_json::to_vec(sc).unwrap_or_default();
+            let _ = f.write_all_at(&body, 0);
+            let _ = f.set_len(body.len() as u64);
+        }
+    });
     let ex = run_scenario_inner(sc);
-    if let Some(f) = &crash_file {
-        let _ = std::fs::remove_file(f);
-    }
+    CRASH_FILE.with(|c| {
+        if let Some(f) = c.borrow().as_ref() {
+            let _ = f.set_len(0);
+        }
+    });
     ex
 }
 
